@@ -110,6 +110,8 @@ type CertSpec struct {
 	SKI        []byte
 	NoAKI      bool
 	UnknownEKU bool // the extended key usage extension lists one private OID only
+	KeyUsage   int  // nonzero: the keyUsage bits (stdx509.KeyUsage) instead of the default for the certificate kind
+	EmailEKU   bool // a CA certificate whose extended key usage lists emailProtection only
 }
 
 type Cert struct {
@@ -169,6 +171,12 @@ func MakeCert(sp CertSpec) *Cert {
 			t.ExtKeyUsage = nil
 			t.UnknownExtKeyUsage = []asn1.ObjectIdentifier{{1, 3, 6, 1, 4, 1, 99999, 7}}
 		}
+	}
+	if sp.KeyUsage != 0 {
+		t.KeyUsage = stdx509.KeyUsage(sp.KeyUsage)
+	}
+	if sp.EmailEKU {
+		t.ExtKeyUsage = []stdx509.ExtKeyUsage{stdx509.ExtKeyUsageEmailProtection}
 	}
 	parent := t
 	signKey := key
